@@ -283,3 +283,75 @@ Proof.
     induction sched as [|t sched IH]; intros s I0; cbn [fold_left]; auto. apply IH, swstep_inv, I0. }
   unfold SwInv in I. destruct (sw_lock (swrun n sched)); [destruct I as [-> _]|destruct I as [-> _]]; cbn; lia.
 Qed.
+
+(* ------------------------------------------------------------------ *)
+(* SyncWriter when the wrapped call may panic (the caller recovers)     *)
+(* ------------------------------------------------------------------ *)
+(* with the deferred Unlock a panicking call is one more way of leaving the bracket: the same LTS *)
+Lemma swpstep_deferred s a : swpstep true s a = swstep s (fst a).
+Proof.
+  destruct a as [t p]. unfold swpstep, swstep. cbn [fst].
+  destruct (nth_error (sw_threads s) t) as [[| |]|]; try reflexivity.
+  rewrite andb_false_r. reflexivity.
+Qed.
+
+Lemma swprun_deferred n sched : swprun true n sched = swrun n (map fst sched).
+Proof.
+  unfold swprun, swrun. generalize {| sw_lock := None; sw_threads := repeat MOut n; sw_inside := [] |}.
+  induction sched as [|a sched IH]; intros s; cbn [fold_left map]; auto. rewrite swpstep_deferred. apply IH.
+Qed.
+
+Lemma swrun_inv n sched : SwInv (swrun n sched).
+Proof.
+  unfold swrun.
+  assert (I0 : SwInv {| sw_lock := None; sw_threads := repeat MOut n; sw_inside := [] |}).
+  { unfold SwInv. cbn. split; auto. intros t E. apply nth_error_In, repeat_spec in E. discriminate. }
+  revert I0. generalize {| sw_lock := None; sw_threads := repeat MOut n; sw_inside := [] |}.
+  induction sched as [|t sched IH]; intros s I0; cbn [fold_left]; auto. apply IH, swstep_inv, I0.
+Qed.
+
+(* whatever calls panicked before: at most one thread inside; the mutex is held only while its holder is inside the
+   wrapped call; and a thread waiting for the mutex while nobody is inside gets in with its next step *)
+Theorem swprun_deferred_live n sched :
+  let s := swprun true n sched in
+  (length (sw_inside s) <= 1)%nat /\
+  (sw_inside s = [] -> sw_lock s = None) /\
+  (forall t p, nth_error (sw_threads s) t = Some MWant -> sw_inside s = [] ->
+     nth_error (sw_threads (swpstep true s (t, p))) t = Some MIn /\ sw_inside (swpstep true s (t, p)) = [t]).
+Proof.
+  cbn zeta. rewrite swprun_deferred. pose proof (swrun_inv n (map fst sched)) as I.
+  set (s := swrun n (map fst sched)) in *. split; [apply swrun_exclusive|].
+  assert (L : sw_inside s = [] -> sw_lock s = None).
+  { intros E. unfold SwInv in I. destruct (sw_lock s); auto. destruct I as (A & _). rewrite A in E. discriminate. }
+  split; auto. intros t p W E. rewrite swpstep_deferred. cbn [fst]. unfold swstep. rewrite W, (L E).
+  cbn [sw_threads sw_inside]. rewrite E, nth_error_upd, Nat.eqb_refl, W. auto.
+Qed.
+
+(* with the inline Unlock one panicking call is enough: the mutex stays held although nobody is inside, and no
+   schedule ever lets a thread in again - every later event through that SyncWriter is lost *)
+Definition SwStuck (s : sw) : Prop :=
+  (exists h, sw_lock s = Some h) /\ sw_inside s = [] /\ forall t, nth_error (sw_threads s) t <> Some MIn.
+
+Lemma swpstep_stuck d s a : SwStuck s -> SwStuck (swpstep d s a).
+Proof.
+  intros ((h & L) & E & B). destruct a as [t p]. unfold swpstep, swstep.
+  destruct (nth_error (sw_threads s) t) as [[| |]|] eqn:Q.
+  - unfold SwStuck. cbn [sw_lock sw_threads sw_inside]. split; [eauto|]. split; auto.
+    intros t' Q'. rewrite nth_error_upd in Q'. destruct (Nat.eqb t t'); [rewrite Q in Q'; discriminate|apply (B _ Q')].
+  - rewrite L. unfold SwStuck. eauto.
+  - exfalso. apply (B _ Q).
+  - unfold SwStuck. eauto.
+Qed.
+
+Theorem swprun_inline_stuck :
+  exists n sched, let s := swprun false n sched in
+    SwStuck s /\ forall sched', sw_inside (fold_left (swpstep false) sched' s) = [].
+Proof.
+  exists 2, [(0, false); (0, false); (0, true)]. cbn zeta.
+  assert (S0 : SwStuck (swprun false 2 [(0, false); (0, false); (0, true)])).
+  { unfold SwStuck. vm_compute. split; [eauto|]. split; auto. intros [|[|[|t]]] H; discriminate. }
+  split; auto. generalize dependent (swprun false 2 [(0, false); (0, false); (0, true)]).
+  intros s S0 sched'. revert s S0. induction sched' as [|a r IH]; intros s S0; cbn [fold_left].
+  - apply S0.
+  - apply IH, swpstep_stuck, S0.
+Qed.
